@@ -726,6 +726,9 @@ pub fn run(prop: &str, seed: u64, tier: &str, shard: usize, nshards: usize) -> S
     let total = n.pow(depth as u32);
     let mut gi = 0usize;
     for algo in algos {
+        if prop == "C17" {
+            break;
+        }
         res.count("exhaustive_space", total as u64);
         for code in 0..total {
             gi += 1;
@@ -788,7 +791,8 @@ pub fn run(prop: &str, seed: u64, tier: &str, shard: usize, nshards: usize) -> S
         } else if !c11 && rng.chance(1, 6) {
             script.push(Act::ArriveAndCancel { key: rng.below(2), kind: *rng.pick(&[Kind::Lookup, Kind::Fetch, Kind::MemFetch]) });
         }
-        let div = if i % 3 == 0 { 2 } else { 1 };
+        // C17: keys 0 and 1 always share their full 64-bit hash
+        let div = if prop == "C17" || i % 3 == 0 { 2 } else { 1 };
         if div == 2 {
             res.count("random_cases_with_colliding_keys", 1);
         }
